@@ -901,7 +901,7 @@ func stringGrid(r *hx.Rng) []src {
 		"1e400", "-1e400", "1e-400", "1e309", "1.7976931348623157e308", "1.7976931348623158e308", "1.7976931348623159e308", "4.9e-324", "2.4703282292062327e-324", "2.4703282292062328e-324",
 		"340282346638528859811704183484516925440", "340282356779733661637539395458142568447", "340282356779733661637539395458142568448", "3.4028235e38", "3.4028236e38", "3.5e38", "1e-45", "7e-46", "7.1e-46",
 		"1.00000005960464477539062", "1.000000059604644775390625", "1.00000005960464477539063", "16777217.0",
-		"0x10", "0X1F", "0xff", "-0x10", "0x", "0xg", "0x1p-2", "0x1.8p1", "0x1p4", "0x_ff", "0xf_f", "1_000", "1__000", "_1", "1_", "1_000.5", "0b101", "0o17", "017",
+		"0x10", "0X1F", "0xff", "-0x10", "0x+1F", "0X-ff", " 0x-0 ", "0x", "0xg", "0x1p-2", "0x1.8p1", "0x1p4", "0x_ff", "0xf_f", "1_000", "1__000", "_1", "1_", "1_000.5", "0b101", "0o17", "017",
 		"inf", "Inf", "-inf", "+Inf", "infinity", "-Infinity", "INF", "nan", "NaN", "-nan", "+nan", "in", "infinit",
 		"true", "TRUE", " True ", "yes", "YES", "on", "On", "y", "Y", "false", "False", "no", "off", "n", "N", "t", "f", "T", "2", "truee", "ｙ", "enabled",
 		"१२३", "1,000", "12abc", "abc", "--1", "+-1", "1e", "e3", "1e+", ".", "+", "-", "1 e3", "١",
